@@ -731,6 +731,10 @@ type Manager struct {
 
 	// guards restart: the stop signal of the newest generation of tasks
 	restartMut sync.Mutex
+	// one Restart at a time: a restart that overtakes an earlier
+	// one would leave the earlier call waiting behind the runners
+	// of the newer generation, which only stop at the next restart
+	restarting sync.Mutex
 }
 
 func NewManager(ctx context.Context, pgp *pgxpool.Pool, conf config.Root) *Manager {
@@ -780,6 +784,8 @@ func (tm *Manager) runTask(t *Task, stop chan struct{}) {
 // Ensures all running tasks stop
 // and calls [Manager.Run] in a new go routine.
 func (tm *Manager) Restart() error {
+	tm.restarting.Lock()
+	defer tm.restarting.Unlock()
 	// Stop the running generation and create the stop signal
 	// of the next one in a single step. A second restart, or a
 	// restart after a failed one, must not close a channel twice.
